@@ -166,7 +166,7 @@ let () =
         | ["M"; lv; lc; mv; ops] ->
           let c = { c_lib_version = bytes_of_hex lv; c_lib_commit = bytes_of_hex lc; c_model_version = bytes_of_hex mv } in
           let p = parse_prog ops in
-          let (evs, _) = run c p in
+          let (evs, _) = rtm_run c p in
           let tok = function
             | EvDie -> "die"
             | EvOut -> "out"
@@ -208,6 +208,27 @@ let () =
           (match to_thread_req (dec t) with
            | None -> print_endline "none"
            | Some l -> print_endline ("req " ^ String.concat "," (List.map (fun (k, v) -> hex_of_bytes k ^ "=" ^ hex_of_bytes v) l)))
+        | "B" :: ts ->
+          (* the emulator's metadata merge (Emu/MetaDefs.build, C15) on the per-stream records read from the given trees *)
+          let ms = List.map (fun t -> to_stream_meta (dec t)) ts in
+          if List.exists (fun m -> m = None) ms then print_endline "nometa"
+          else
+            (match rtm_build (List.map (function Some m -> m | None -> failwith "none") ms) with
+             | Err -> print_endline "err"
+             | Crash -> print_endline "crash"
+             | Ok sys ->
+               let t = List.map (fun (_, (((_, _), t), a)) -> "TH " ^ string_of_z a ^ "." ^ string_of_z t) (rtm_thread_rows sys) in
+               let c = List.map (fun (_, ((g, _), c)) ->
+                   match c with
+                   | Some (_, p) -> " CPU " ^ string_of_z g ^ "." ^ string_of_z p
+                   | None -> "vCPU " ^ string_of_z g ^ ".*") (rtm_cpu_rows sys) in
+               print_endline ("ok|" ^ String.concat ";" t ^ "|" ^ String.concat ";" c))
+        | ["X"; lv; lc; mv; ops] ->
+          (* expected_metas of a program = the records its final trees read back as (C02_metadata_stream_metas) *)
+          let c = { c_lib_version = bytes_of_hex lv; c_lib_commit = bytes_of_hex lc; c_model_version = bytes_of_hex mv } in
+          let p = parse_prog ops in
+          let (evs, _) = rtm_run c p in
+          print_endline (if final_metas p evs = Some (expected_metas p) then "same" else "differ")
         | ["S"; t] ->
           (match to_stream_meta (dec t) with
            | None -> print_endline "none"
